@@ -205,21 +205,11 @@ Definition gen_site_imported (r : string * string * string * string * string * s
       end
   end.
 Definition gen_site_ok r := gen_site_typed r && gen_site_imported r.
-(* the one call known to be ill-typed (finding: list_request extends MessageOptions, set on MethodOptions) *)
-Definition is_listrequest_site (r : string * string * string * string * string * string * list string * bool) : bool :=
-  match r with (_, fn, _, x, _, _, _, _) =>
-    String.eqb fn "conversionVisitor.visitServiceMethodNode" && String.eqb x "list_j5pb.E_ListRequest" end.
-
-Lemma setext_typed_partial :
-  forallb gen_site_ok (filter (fun r => negb (is_listrequest_site r)) SetExtGen.sites) = true.
+(* every SetExtension call passes the extension's declared Go type to the options message the extension extends,
+   in a branch that imports the extension's file.  (Before fix 985f10a the list_request call in
+   visitServiceMethodNode was the one ill-typed site: it is gone, a list request is reported as an error.) *)
+Lemma setext_typed : forallb gen_site_ok SetExtGen.sites = true.
 Proof. vm_compute. reflexivity. Qed.
-Lemma setext_typed_refuted :
-  exists r, In r SetExtGen.sites /\ is_listrequest_site r = true /\ gen_site_typed r = false.
-Proof.
-  exists (nth (length SetExtGen.sites - 1) SetExtGen.sites
-              ("", "", "", "", "", "", [], false)).
-  vm_compute. split; [|split; reflexivity]. repeat (first [left; reflexivity | right]).
-Qed.
 (* the enum-value import really is ensured by the caller (twice: info fields and option info) *)
 Lemma enum_value_import_in_caller :
   2 <= length (filter (fun r => match r with (_, fn, p) =>
